@@ -162,7 +162,8 @@ class CacheWarmer(Entity):
 
         # Create initial warming event
         return Event(
-            time=Instant.Epoch,  # Will be scheduled at current time
+            # Stamped with the current time: an Epoch stamp is in the past once the run is under way
+            time=self.now if self._clock is not None else Instant.Epoch,
             event_type="cache_warm",
             target=self,
             context={"action": "warm_next"},
